@@ -112,6 +112,7 @@ type Scenario struct {
 	SlowConvergeWaitSec int            `json:"slow_converge_wait_sec,omitempty"` // timer-driven convergence (sync-peer rotation): poll this long before the verdict
 	BadFirst            bool           `json:"bad_first,omitempty"`              // misbehaving nodes are the only reachable ones until they have been dealt with
 	ServeQueries        int            `json:"serve_queries,omitempty"`          // C13: after convergence the honest node asks the service this many getheaders questions over the wire
+	HitAndRun           bool           `json:"hit_and_run,omitempty"`            // C07: at the end a host delivers the forbidden header and hangs up at once; a newcomer of that host must be refused (1 h ban)
 	ReOffend            bool           `json:"re_offend,omitempty"`              // C07: at the end a host with two connections sends the forbidden header, its ban (ban_duration_ms, seconds) elapses unnoticed, the second connection offends again, and a newcomer of that host must be refused
 	IdleSec             int            `json:"idle_sec,omitempty"`               // after the initial sync nothing happens for this many seconds (the sync manager's periodic sync-peer check runs every 30 s and judges a quiet peer after three of them)
 	HeldWebhook         bool           `json:"held_webhook,omitempty"`           // a webhook is registered whose endpoint accepts every delivery and answers none of them until the initial sync has been judged
@@ -946,6 +947,9 @@ func Execute(s *Scenario, dir string) (res *Result) {
 	x.scenarioSpecificChecks("end")
 	if s.ReOffend && s.Engine == "legacy" && res.Verdict == "held" {
 		x.reOffend()
+	}
+	if s.HitAndRun && s.Engine == "legacy" && res.Verdict == "held" {
+		x.hitAndRun()
 	}
 	x.collectLocators()
 	res.Counters["messages_logged"] = x.rig.Log.Messages()
